@@ -19,7 +19,7 @@ def sh(c):
 head = sh("git -C /repo rev-parse HEAD").stdout.strip()
 sh("git -C %s reset -q --hard; git -C %s clean -fdq; git -C %s checkout -q --detach %s" % (wt, wt, wt, head))
 man = json.load(open("/verif/MANIFEST.json"))
-checks = [c["property_id"] for c in man["checks"]] if allc else [pid]
+checks = [c["property_id"] for c in man["checks"]] if allc else ([a for a in sys.argv[2:] if a.startswith("C")] or [pid])
 res = {}
 for patch in sorted(glob.glob(out + "/patch_*.diff")):
     k = os.path.basename(patch)[6:-5]
